@@ -52,13 +52,16 @@ Proof. intros H ->. destruct fuel; cbn [search]; [reflexivity|]. rewrite H. refl
 Definition absent (t : table) (s : str) : Prop :=
   forall m, In m t -> mfn m = false -> find_from (mname m) s 0 = None.
 
-Lemma pass_absent t rs s ch : absent t s -> pass t rs s ch = (s, ch).
+Lemma sweep_absent fuel name body s ch : find_from name s 0 = None -> sweep fuel name body s 0 ch = (s, ch).
+Proof. intros H. destruct fuel; cbn [sweep]; [reflexivity|]. rewrite search_none_if_absent; auto. Qed.
+
+Lemma pass_absent t s ch : absent t s -> pass t s ch = (s, ch).
 Proof.
   revert ch; induction t as [|m r IH]; intros ch H; cbn [pass]; [reflexivity|].
   assert (Hr : absent r s) by (intros x Hx; apply H; right; exact Hx).
   destruct (mfn m) eqn:Fn; [apply IH; exact Hr|].
   destruct (mname m) eqn:Nm; [apply IH; exact Hr|]. rewrite <- Nm.
-  rewrite search_none_if_absent; [apply IH; exact Hr| |reflexivity].
+  rewrite sweep_absent; [apply IH; exact Hr|].
   apply H; [left; reflexivity|exact Fn].
 Qed.
 
@@ -67,3 +70,13 @@ Lemma expand_absent_id t s : absent t s -> expand t s = s.
 Proof.
   intros H. unfold expand, max_iterations. cbn [passes]. rewrite pass_absent by exact H. reflexivity.
 Qed.
+
+(* every replacement made by the repaired loop is a whole-word occurrence outside the string
+   literals of the text AS IT IS at that moment *)
+Lemma sweep_unfold f name body s pos ch :
+  sweep (S f) name body s pos ch =
+  match search (S (List.length s)) name s (string_ranges s) pos with
+  | None => (s, ch)
+  | Some p => sweep f name body (replace_at s p (List.length name) body) (p + List.length body) true
+  end.
+Proof. reflexivity. Qed.
